@@ -21,7 +21,7 @@ import (
 // Single-threaded: only the I/O fragmentation axis is simulated (reader fragments x bufio sizes x cut positions).
 
 func init() {
-	Register(&PropertyDef{ID: "C12", Strata: []string{"fragments", "splits", "encoder", "bigargs", "splits", "encoder"}, Run: runC12, StepCap: 1000})
+	Register(&PropertyDef{ID: "C12", Strata: []string{"fragments", "splits", "encoder", "bigargs", "splits", "encoder", "parsers"}, Run: runC12, StepCap: 1000})
 }
 
 type c12Item struct {
@@ -121,6 +121,22 @@ func isEOFish(err error) bool {
 func c12Decode(items []c12Item, whole int, data []byte, cut bool, rd io.Reader, bufSize int, ctx string) *Violation {
 	dec := client.NewDecoder(bufio.NewReaderSize(rd, bufSize))
 	var sum int64
+	// the sender keeps decoded commands queued (batch, transaction, replay unit) while later ones are decoded: what was
+	// returned must stay what it was
+	type kept struct {
+		cmd  string
+		args [][]byte
+	}
+	var queue []kept
+	defer func() { queue = nil }()
+	recheck := func() *Violation {
+		for k, q := range queue {
+			if q.cmd != items[k].name || !argsEqual(q.args, items[k].args) {
+				return c12Viol("C12.args_changed_later", "arguments returned for a command changed while later commands were decoded", "%s: item %d was decoded as sent, but after %d more items had been decoded its arguments read [%s] instead of [%s]", ctx, k, len(queue)-1-k, fmtCmd(q.cmd, q.args), fmtCmd(items[k].name, items[k].args))
+			}
+		}
+		return nil
+	}
 	for k := 0; k < whole; k++ {
 		it := items[k]
 		rp, off, err := client.MustDecodeOpt(dec)
@@ -138,6 +154,10 @@ func c12Decode(items []c12Item, whole int, data []byte, cut bool, rd io.Reader, 
 		if off != sum {
 			return c12Viol("C12.offset", "offset after an item differs from the bytes consumed", "%s: after item %d [%s] the decoder reports offset %d, the items up to it are %d bytes long", ctx, k, fmtCmd(it.name, it.args), off, sum)
 		}
+		queue = append(queue, kept{cmd, args})
+	}
+	if v := recheck(); v != nil {
+		return v
 	}
 	rp, off, err := client.MustDecodeOpt(dec)
 	if err == nil {
@@ -159,6 +179,9 @@ func c12Decode(items []c12Item, whole int, data []byte, cut bool, rd io.Reader, 
 func runC12(r *Run, stratum string) *Violation {
 	if stratum == "encoder" {
 		return runC12Encoder(r)
+	}
+	if stratum == "parsers" {
+		return runC12Parsers(r)
 	}
 	g := r.Gen()
 	sc := r.Sched()
@@ -191,6 +214,19 @@ func runC12(r *Run, stratum string) *Violation {
 		n += g.Choose("hugex", 4097) - 2048
 		extra("SET", [][]byte{[]byte("big:key"), g.Bytes("hugearg", n)})
 		simrt.Probe("c12_multi_megabyte_arg")
+		if g.Choose("huge2", 2) == 0 {
+			// a second multi-megabyte value, not larger than the first: in another command or in the same one
+			n2 := n - g.Choose("huge2less", 70000)
+			if n2 < 1<<20 {
+				n2 = n
+			}
+			if g.Choose("huge2same", 2) == 0 {
+				extra("mset", [][]byte{[]byte("big:a"), g.Bytes("hugea", n), []byte("big:b"), g.Bytes("hugeb", n2)})
+			} else {
+				extra("SET", [][]byte{[]byte("big:key2"), g.Bytes("hugearg2", n2)})
+			}
+			simrt.Probe("c12_two_multi_megabyte_args")
+		}
 	}
 	if stratum != "splits" && g.Choose("manyargs", 12) == 0 {
 		n := 200 + g.Choose("nargs", 6000)
